@@ -126,6 +126,43 @@ pub fn check_frame(c: &FrameCase, st: &mut Stats) -> Result<(), String> {
                     Err(err) => return Err(format!("decoding the {name} encoding ({how}) fails: {err}")),
                 }
             }
+            // text in another letter case that decodes at all (whether it does is C03's subject) is the same frame
+            // and must encode like it: upper-case pairs, identical to the encoding of the equal frame
+            let lower = enc.to_ascii_lowercase();
+            if lower != enc {
+                if let Ok(from_lower) = Frame::from_bytes(&lower) {
+                    if from_lower == frame && (from_lower.to_bytes() != want || from_lower.clone().to_bytes_with_newline() != want_nl) {
+                        return Err(format!(
+                            "a frame decoded from lower-case text ({how}) encodes as {} although the equal frame encodes as {}",
+                            show_bytes(&from_lower.to_bytes()),
+                            show_bytes(&want)
+                        ));
+                    }
+                }
+            }
+            // a data block that has already been through an encode, or came out of a decode, placed under another header
+            // (and the same header again) must encode by the format like a fresh block
+            let (a2, t2) = (c.addr ^ 0x8101, c.ty.wrapping_add(0x11));
+            let decoded = Frame::from_bytes(&enc_nl).map_err(|e| format!("decoding fails: {e}"))?;
+            let blocks = [("encoded-before", frame.clone().into_data()), ("decoded", decoded.into_data()), ("through-a-message", Frame::from(flipdot_core::Message::from(frame.clone())).into_data())];
+            for (origin, block) in blocks {
+                for (a, t) in [(a2, t2), (c.addr, c.ty), (c.addr, t2), (a2, c.ty)] {
+                    let rehoused = Frame::new(Address(a), MsgType(t), block.clone());
+                    let got = rehoused.to_bytes();
+                    let want2 = ref_encode(a, t, &c.data);
+                    if got != want2 {
+                        return Err(format!(
+                            "a data block ({origin}, {how}) moved into a frame with address {a:#06x} type {t:#04x} encodes as {} but the documented format gives {}",
+                            show_bytes(&got),
+                            show_bytes(&want2)
+                        ));
+                    }
+                    // encode twice: the second encoding of one frame object equals the first
+                    if rehoused.to_bytes() != want2 {
+                        return Err(format!("the second encoding of one frame object ({origin}, {how}) differs from the first"));
+                    }
+                }
+            }
             Ok(())
         });
         match r {
